@@ -24,8 +24,11 @@ GUARDS = {'all': {'perm-moves-winner-and-loser': 0.1, 'withdrawn-mid-ranking': 0
 
 @st.composite
 def cases(draw, tier):
-    case = draw(gen.election_cases(tier=tier, equal_for_meek=False))
     d = D(draw)
+    if d.p(4):
+        case = gen.scotland_prior_stage_case(d) if d.p(40) else gen.scotland_threeway_case(d)
+    else:
+        case = draw(gen.election_cases(tier=tier, equal_for_meek=False))
     nc = case['ncand']
     if case['tie'] is None:
         case['tie'] = d.perm(range(1, nc + 1))
